@@ -128,6 +128,7 @@ class Engine:
     self.poisoned = None
     self.path_forks = 0
     self.notes = {}
+    self._model = None
 
   def poison(self, exc):
     self.poisoned = exc
@@ -139,6 +140,7 @@ class Engine:
   def fresh_int(self, name, lo, hi):
     v = z3.BitVec(name, W) if MODE == 'bv' else z3.Int(name)
     self.solver.add(v >= lo, v <= hi)
+    self._model = None
     s = SymInt(v, lo, hi)
     self.inputs.append((name, 'int', v))
     return s
@@ -185,6 +187,7 @@ class Engine:
       if z3.is_true(e): return
       if z3.is_false(e): raise Abort()
       self.solver.add(e)
+      self._model = None
       if not self.check(): raise Abort()
     elif not c:
       raise Abort()
@@ -195,46 +198,49 @@ class Engine:
     e = z3.simplify(e)
     if z3.is_true(e): return True
     if z3.is_false(e): return False
-    k = e.get_id()
-    kn = self.known.get(k)
-    if kn is not None: return kn[0]
     self.ndec += 1
     if self.ndec > self.max_decisions:
       raise PathBudget("decision budget")
     if self.pos < len(self.prefix):
       d, forced, h = self.prefix[self.pos]
-      if h != e.hash():
+      if h != _site():
         raise Inconclusive("nondeterministic re-execution (decision %d)" % self.pos)
       self.pos += 1
       self.decisions.append((d, forced, h))
     else:
-      t_ok = self.check(e)
-      f_ok = self.check(z3.Not(e)) if t_ok else True
-      if t_ok and f_ok:
+      m = self._model
+      if m is None:
+        if not self.check(): raise Abort()
+        m = self._model = self.solver.model()
+      side = z3.is_true(m.eval(e, model_completion=True))      # this side is feasible: the cached model witnesses it
+      other_ok = self.check(z3.Not(e) if side else e)
+      other_model = self.solver.model() if other_ok else None
+      h = _site()
+      if other_ok:
         d = True
-        self.pending.append(self.decisions + [(False, False, e.hash())])
-        self.decisions.append((True, False, e.hash()))
+        self.pending.append(self.decisions + [(False, False, h)])
+        self.decisions.append((True, False, h))
         self.path_forks += 1
-      elif t_ok:
-        d = True
-        self.decisions.append((True, True, e.hash()))
-      elif f_ok:
-        # t infeasible; f may still be infeasible if the path itself is (cannot happen: path is sat)
-        d = False
-        self.decisions.append((False, True, e.hash()))
+        if not side: self._model = other_model
+      else:
+        d = side
+        self.decisions.append((d, True, h))
       self.pos += 1
+    # no per-path cache keyed on term identity: AST ids (and the simplifier's argument order) differ between worker
+    # processes, and a replayed prefix must see exactly the same sequence of decide() calls
     self.solver.add(e if d else z3.Not(e))
-    self.known[k] = (d, e)      # keep e alive so its id is not reused
     return d
 
   # ---- exploration
-  def explore(self, fn, on_path, stack=None, max_paths=10**9, deadline=None, split_at=None):
+  def explore(self, fn, on_path, stack=None, max_paths=10**9, deadline=None, split_at=None, slice_until=None):
     """fn(engine) runs the harness once.  on_path(engine, outcome) is called for each completed path with
     outcome = ('ok', None) | ('exc', exception) and may query the solver (path condition is asserted).
     Returns leftover stack (non-empty only when split_at is reached)."""
     stack = [[]] if stack is None else stack
     while stack:
       if split_at is not None and len(stack) >= split_at:
+        return stack
+      if slice_until is not None and time.time() > slice_until and self.paths > 0:
         return stack
       if deadline is not None and time.time() > deadline:
         raise Inconclusive("time budget exhausted with %d open subtrees" % len(stack))
@@ -262,6 +268,8 @@ class Engine:
         if outcome is not None:
           if self.pos < len(self.prefix):
             raise Inconclusive("re-execution ended before its prefix was consumed")
+          if self._model is None and self.prefix and not self.check():
+            raise Inconclusive("replayed prefix gave an infeasible path condition")
           self.paths += 1
           if self.path_forks or self.decisions: self.forks += 1
           on_path(self, outcome)
@@ -272,6 +280,17 @@ class Engine:
       if self.paths >= max_paths:
         raise Inconclusive("path budget (%d)" % max_paths)
     return []
+
+
+_HERE = __file__.rsplit('/', 1)[0] + '/'
+
+def _site():
+  """fingerprint of the program point that asked for a decision (first frame outside symx/): z3 term hashes are not
+  stable across worker processes (the simplifier orders commutative arguments by AST id), source positions are"""
+  f = sys._getframe(2)
+  while f is not None and f.f_code.co_filename.startswith(_HERE): f = f.f_back
+  if f is None: return 0
+  return hash((f.f_code.co_filename, f.f_lineno)) & 0xffffffff
 
 
 def _alarm(signum, frame):
